@@ -316,8 +316,21 @@ def check_c02(ctx):
                 pd = untag(f["parsed"]["tree"]) if f["parsed"]["env"].get("obj") else None
                 want_id = want != "notification"
                 id_eq = (not want_id) or (isinstance(pd, dict) and "id" in pd and pd["id"] == idv and type(pd["id"]) is type(idv) and isinstance(d, dict) and d.get("id") == idv and type(d.get("id")) is type(idv))
+                pl = untag(c["payload"])
+                if c["emitter"] == "create_request_token":
+                    pl = dict(pl or {})
+                    pl["_meta"] = dict(pl.get("_meta") or {}, progressToken="tok-1")
+                if want == "result":
+                    got_pl = d.get("result") if isinstance(d, dict) else None
+                    if pl is None or (pl == {} and c["emitter"].startswith(("create", "legacy"))):
+                        pl = {}
+                elif want == "error":
+                    got_pl = (d.get("error") or {}).get("data") if isinstance(d, dict) else None
+                else:
+                    got_pl = d.get("params") if isinstance(d, dict) else None
+                payload_eq = tag(got_pl) == tag(pl) or (pl in (None, {}) and got_pl in (None, {}))
                 recs.append({"emitter": c["emitter"], "want": want, "backend": "fallback" if fb else "pydantic", "form": form, "env": f["env"], "penv": f["parsed"]["env"],
-                             "idEq": bool(id_eq), "sameTree": f["parsed"]["tree"] == f["tree"], "built": True, "pcls": f["parsed"]["cls"]})
+                             "idEq": bool(id_eq), "sameTree": f["parsed"]["tree"] == f["tree"], "payloadEq": bool(payload_eq), "built": True, "pcls": f["parsed"]["cls"]})
     slim = [{k: v for k, v in x.items() if k not in ("built", "pcls")} for x in recs if x["built"]]
     res = validate.validate("EnvelopeTrace", slim, {}, work=os.path.join(ctx.work, "val"), chunk=3000)
     if res["rejected"]:
